@@ -2,6 +2,8 @@ import GridVerif.Model.Proto
 import GridVerif.Model.Elem
 import GridVerif.Model.OneD
 import GridVerif.Gen.OneDFormulas
+import GridVerif.Model.OneDPy
+import GridVerif.Gen.OneDCtor
 
 namespace GridVerif.Driver.C01
 open GridVerif.Proto GridVerif.OneD
@@ -96,6 +98,7 @@ def fn2 : String → Option (Float → Float → Float)
   | "SingleArcSinhExp.weight" => some SingleArcSinhExp.weight
   | "gstrip" => some gstrip
   | "dergstrip" => some OneD.dergstrip
+  | "dergstripAt" => some dergstripAt
   | _ => none
 
 open Gen.OneD in
@@ -149,6 +152,141 @@ def int1 : String → Option (Nat → Int)
   | "SingleArcSinhExp.kFirst" => some SingleArcSinhExp.kFirst
   | _ => none
 
+/-! ### the generated constructors (`Gen/OneDCtor.lean`) -/
+
+open GridVerif.OneD.Py in
+def showPy : Except Err (PyGrid Float) → String
+  | .error e => showErr e
+  | .ok g =>
+    "ok " ++ sFloats g.points ++ " " ++ sFloats g.weights ++ " " ++
+      (match g.domain with
+       | none => "none none"
+       | some d => sFloat d.lo ++ " " ++ (match d.hi with | some h => sFloat h | none => "inf"))
+
+/-- the NumPy/SciPy routines, all answering with the vectors given on the line -/
+def mkExt (g : Nat → List Float × List Float) : Py.Ext Float :=
+  ⟨g, g, g, fun n _ => g n, fnan⟩
+
+open Gen.OneD in
+/-- generated constructors callable as `quadrature(npoints)` (generated default parameters) -/
+def baseCtor (ext : Py.Ext Float) : String → Option (Int → Except Err (Py.PyGrid Float))
+  | "GaussLaguerre" => some fun n => GaussLaguerre.ctor ext n GaussLaguerre.alphaDefault
+  | "GaussLegendre" => some (GaussLegendre.ctor ext)
+  | "GaussChebyshev" => some (GaussChebyshev.ctor ext)
+  | "UniformInteger" => some UniformInteger.ctor
+  | "GaussChebyshevType2" => some (GaussChebyshevType2.ctor ext)
+  | "GaussChebyshevLobatto" => some GaussChebyshevLobatto.ctor
+  | "Trapezoidal" => some Trapezoidal.ctor
+  | "RectangleRuleSineEndPoints" => some RectangleRuleSineEndPoints.ctor
+  | "TanhSinh" => some fun n => TanhSinh.ctor n TanhSinh.hDefault
+  | "Simpson" => some Simpson.ctor
+  | "MidPoint" => some MidPoint.ctor
+  | "ClenshawCurtis" => some ClenshawCurtis.ctor
+  | "FejerFirst" => some FejerFirst.ctor
+  | "FejerSecond" => some FejerSecond.ctor
+  | "TrefethenCC" => some fun n => TrefethenCC.ctor n TrefethenCC.dDefault
+  | "TrefethenGC2" => some fun n => TrefethenGC2.ctor ext n TrefethenGC2.dDefault
+  | "TrefethenStripCC" => some fun n => TrefethenStripCC.ctor n TrefethenStripCC.rhoDefault
+  | "TrefethenStripGC2" => some fun n => TrefethenStripGC2.ctor ext n TrefethenStripGC2.rhoDefault
+  | "ExpSinh" => some fun n => ExpSinh.ctor n ExpSinh.hDefault
+  | "LogExpSinh" => some fun n => LogExpSinh.ctor n LogExpSinh.hDefault
+  | "ExpExp" => some fun n => ExpExp.ctor n ExpExp.hDefault
+  | "SingleTanh" => some fun n => SingleTanh.ctor n SingleTanh.hDefault
+  | "SingleExp" => some fun n => SingleExp.ctor n SingleExp.hDefault
+  | "SingleArcSinhExp" => some fun n => SingleArcSinhExp.ctor n SingleArcSinhExp.hDefault
+  | _ => none
+
+open Gen.OneD in
+def noArgCtor : String → Option (Int → Except Err (Py.PyGrid Float))
+  | "UniformInteger" => some UniformInteger.ctor
+  | "GaussChebyshevLobatto" => some GaussChebyshevLobatto.ctor
+  | "Trapezoidal" => some Trapezoidal.ctor
+  | "RectangleRuleSineEndPoints" => some RectangleRuleSineEndPoints.ctor
+  | "Simpson" => some Simpson.ctor
+  | "MidPoint" => some MidPoint.ctor
+  | "ClenshawCurtis" => some ClenshawCurtis.ctor
+  | "FejerFirst" => some FejerFirst.ctor
+  | "FejerSecond" => some FejerSecond.ctor
+  | _ => none
+
+open Gen.OneD in
+def stepArgCtor : String → Option (Int → Float → Except Err (Py.PyGrid Float))
+  | "TanhSinh" => some TanhSinh.ctor
+  | "ExpSinh" => some ExpSinh.ctor
+  | "LogExpSinh" => some LogExpSinh.ctor
+  | "ExpExp" => some ExpExp.ctor
+  | "SingleTanh" => some SingleTanh.ctor
+  | "SingleExp" => some SingleExp.ctor
+  | "SingleArcSinhExp" => some SingleArcSinhExp.ctor
+  | "TrefethenStripCC" => some TrefethenStripCC.ctor
+  | _ => none
+
+open Gen.OneD in
+def gaussArgCtor : String → Option (Py.Ext Float → Int → Except Err (Py.PyGrid Float))
+  | "GaussLegendre" => some GaussLegendre.ctor
+  | "GaussChebyshev" => some GaussChebyshev.ctor
+  | "GaussChebyshevType2" => some GaussChebyshevType2.ctor
+  | _ => none
+
+open Gen.OneD in
+/-- generated default of the extra parameter -/
+def defaultOf : String → Option String
+  | "GaussLaguerre" => some (sFloat GaussLaguerre.alphaDefault)
+  | "TanhSinh" => some (sFloat TanhSinh.hDefault)
+  | "ExpSinh" => some (sFloat ExpSinh.hDefault)
+  | "LogExpSinh" => some (sFloat LogExpSinh.hDefault)
+  | "ExpExp" => some (sFloat ExpExp.hDefault)
+  | "SingleTanh" => some (sFloat SingleTanh.hDefault)
+  | "SingleExp" => some (sFloat SingleExp.hDefault)
+  | "SingleArcSinhExp" => some (sFloat SingleArcSinhExp.hDefault)
+  | "TrefethenStripCC" => some (sFloat TrefethenStripCC.rhoDefault)
+  | "TrefethenStripGC2" => some (sFloat TrefethenStripGC2.rhoDefault)
+  | "TrefethenStripGeneral" => some (sFloat TrefethenStripGeneral.rhoDefault)
+  | "TrefethenCC" => some s!"{TrefethenCC.dDefault}"
+  | "TrefethenGC2" => some s!"{TrefethenGC2.dDefault}"
+  | "TrefethenGeneral" => some s!"{TrefethenGeneral.dDefault}"
+  | _ => none
+
+/-- `C01.ctor …`: the same lines as `C01.make …`, answered by the generated constructors. -/
+def handleCtor : List String → Option String
+  | [cls, n] => do
+    let mk ← noArgCtor cls
+    pure (showPy (mk (← pInt n)))
+  | ["TrefethenCC", n, d] => do
+    pure (showPy (Gen.OneD.TrefethenCC.ctor (← pInt n) (← pInt d)))
+  | [cls, n, h] => do
+    let mk ← stepArgCtor cls
+    pure (showPy (mk (← pInt n) (← pFloat h)))
+  | "GaussLaguerre" :: n :: alpha :: rest => do
+    pure (showPy (Gen.OneD.GaussLaguerre.ctor (mkExt (← pGauss rest)) (← pInt n) (← pFloat alpha)))
+  | "TrefethenGC2" :: n :: d :: rest => do
+    pure (showPy (Gen.OneD.TrefethenGC2.ctor (mkExt (← pGauss rest)) (← pInt n) (← pInt d)))
+  | "TrefethenStripGC2" :: n :: rho :: rest => do
+    pure (showPy (Gen.OneD.TrefethenStripGC2.ctor (mkExt (← pGauss rest)) (← pInt n) (← pFloat rho)))
+  | "TrefethenGeneral" :: n :: base :: d :: rest => do
+    let g ← pGauss rest
+    let q ← if base = "-" then pure none else (baseCtor (mkExt g) base).map some
+    pure (showPy (Gen.OneD.TrefethenGeneral.ctor (← pInt n) q (← pInt d)))
+  | "TrefethenStripGeneral" :: n :: base :: rho :: rest => do
+    let g ← pGauss rest
+    let q ← baseCtor (mkExt g) base
+    pure (showPy (Gen.OneD.TrefethenStripGeneral.ctor (← pInt n) q (← pFloat rho)))
+  | cls :: n :: rest => do
+    let mk ← gaussArgCtor cls
+    pure (showPy (mk (mkExt (← pGauss rest)) (← pInt n)))
+  | _ => none
+
+/-- `C01.init <P> <W> none` / `C01.init <P> <W> dom <lo> <hi|inf>`: the generated `OneDGrid.__init__`. -/
+def handleInit (toks : List String) : Option String := do
+  let (p, r) ← pVec pFloat toks
+  let (w, r) ← pVec pFloat r
+  match r with
+  | ["none"] => pure (showPy (Gen.OneD.OneDGrid.init p w none))
+  | ["dom", lo, hi] =>
+    let h ← if hi = "inf" then pure none else (pFloat hi).map some
+    pure (showPy (Gen.OneD.OneDGrid.init p w (some ⟨← pFloat lo, h⟩)))
+  | _ => none
+
 /-- Line-protocol handler of property C01: `C01.<op> args…` ↦ one answer line
 (`none` = malformed, answered `bad-op`).
 
@@ -156,8 +294,13 @@ def int1 : String → Option (Nat → Int)
 * `C01.make TrefethenGeneral <npoints> <base|-> <d> <P> <W>`, `… TrefethenStripGeneral <npoints> <base> <rho> <P> <W>`
 * `C01.make FejerSecondCorrected <npoints>` — the hand-written complete Fejér-2 series;
   `C01.fejer2missing <n>` — the per-weight contribution of the term the code leaves out
+* `C01.ctor …` — the same lines as `C01.make …`, answered by the generated constructors (`Gen/OneDCtor.lean`);
+  `C01.init <P> <W> none | dom <lo> <hi|inf>` — the generated `OneDGrid.__init__`; `C01.default <Class>`
 * `C01.fn <generated function> x [y]`, `C01.nat <generated bound> n [j]`, `C01.int <…kFirst> n` -/
 def handle : List String → Option String
+  | "C01.ctor" :: rest => handleCtor rest
+  | "C01.init" :: rest => handleInit rest
+  | ["C01.default", cls] => do pure ("ok " ++ (← defaultOf cls))
   | ["C01.make", cls, n] => do
     let mk ← noArg cls
     pure (showGrid (mk (← pInt n)))
